@@ -101,10 +101,10 @@ impl Writer {
             })();
             if let Err(e) = flushed {
                 // stay on the current block; the block just allocated is given up (empty)
-                FileStateTracker::set_block_unlocked(new_block.id as usize);
+                FileStateTracker::set_block_unlocked(self.allocator.ns(), new_block.id as usize);
                 return Err(e);
             }
-            FileStateTracker::set_block_unlocked(block.id as usize);
+            FileStateTracker::set_block_unlocked(self.allocator.ns(), block.id as usize);
             let _ = self.reader.append_block_to_chain(&self.col, sealed);
             debug_print!("[writer] appended sealed block to chain: col={}", self.col);
             // switch to new block
@@ -287,7 +287,7 @@ impl Writer {
                         Ok(b) => b,
                         Err(e) => {
                             // nothing has been written yet
-                            Self::withdraw_batch(&[], &revert_info, &mut *cur_offset);
+                            self.withdraw_batch(&[], &revert_info, &mut *cur_offset);
                             *block = original_block;
                             return Err(e);
                         }
@@ -331,7 +331,7 @@ impl Writer {
                 ) {
                     Ok(()) => {
                         if let Err(e) = Self::flush_batch_files(&write_plan, &pending_seals) {
-                            Self::withdraw_batch(&write_plan, &revert_info, &mut *cur_offset);
+                            self.withdraw_batch(&write_plan, &revert_info, &mut *cur_offset);
                             *block = original_block;
                             return Err(e);
                         }
@@ -381,7 +381,7 @@ impl Writer {
 
                 *cur_offset = revert_info.original_offset;
                 for block_id in revert_info.allocated_block_ids {
-                    FileStateTracker::set_block_unlocked(block_id as usize);
+                    FileStateTracker::set_block_unlocked(self.allocator.ns(), block_id as usize);
                 }
                 *block = original_block;
                 return Err(e);
@@ -390,7 +390,7 @@ impl Writer {
 
         // Success - fsync touched files
         if let Err(e) = Self::flush_batch_files(&write_plan, &pending_seals) {
-            Self::withdraw_batch(&write_plan, &revert_info, &mut *cur_offset);
+            self.withdraw_batch(&write_plan, &revert_info, &mut *cur_offset);
             *block = original_block;
             return Err(e);
         }
@@ -462,7 +462,7 @@ impl Writer {
                 // Rollback and fail
                 *cur_offset = revert_info.original_offset;
                 for block_id in revert_info.allocated_block_ids.iter() {
-                    FileStateTracker::set_block_unlocked(*block_id as usize);
+                    FileStateTracker::set_block_unlocked(self.allocator.ns(), *block_id as usize);
                 }
                 return Err(std::io::Error::new(
                     std::io::ErrorKind::Unsupported,
@@ -581,7 +581,7 @@ impl Writer {
                     // Rollback
                     *cur_offset = revert_info.original_offset;
                     for block_id in revert_info.allocated_block_ids.iter() {
-                        FileStateTracker::set_block_unlocked(*block_id as usize);
+                        FileStateTracker::set_block_unlocked(self.allocator.ns(), *block_id as usize);
                     }
                     return Err(std::io::Error::new(
                         std::io::ErrorKind::Other,
@@ -610,7 +610,7 @@ impl Writer {
                 // Rollback
                 *cur_offset = revert_info.original_offset;
                 for block_id in revert_info.allocated_block_ids.iter() {
-                    FileStateTracker::set_block_unlocked(*block_id as usize);
+                    FileStateTracker::set_block_unlocked(self.allocator.ns(), *block_id as usize);
                 }
                 Err(e)
             }
@@ -646,7 +646,7 @@ impl Writer {
             crate::wal::verif::die()
         }
         for blk in sealed {
-            FileStateTracker::set_block_unlocked(blk.id as usize);
+            FileStateTracker::set_block_unlocked(self.allocator.ns(), blk.id as usize);
             let _ = self.reader.append_block_to_chain(&self.col, blk);
         }
         *cur_offset = planning_offset;
@@ -656,6 +656,7 @@ impl Writer {
     /// invalidate its headers so that no part of it is recovered after a restart, and roll
     /// the writer back like the write-failure paths do.
     fn withdraw_batch(
+        &self,
         write_plan: &[(Block, u64, usize)],
         revert_info: &BatchRevertInfo,
         cur_offset: &mut u64,
@@ -671,7 +672,7 @@ impl Writer {
         }
         *cur_offset = revert_info.original_offset;
         for block_id in revert_info.allocated_block_ids.iter() {
-            FileStateTracker::set_block_unlocked(*block_id as usize);
+            FileStateTracker::set_block_unlocked(self.allocator.ns(), *block_id as usize);
         }
     }
 }
